@@ -21,7 +21,7 @@ use vrp_core::solver::{RefinementContext, TargetSearchOperator, create_elitism_p
 use vrp_verif_harness::pragen::*;
 use vrp_verif_harness::*;
 
-fn gen_cases(rng: &mut Rng, tier: Tier) -> Vec<Value> {
+pub fn gen_cases(rng: &mut Rng, tier: Tier) -> Vec<Value> {
     let (n, steps) = if tier == Tier::Thorough { (1500, 60) } else { (120, 25) };
     (0..n)
         .map(|i| {
@@ -310,7 +310,7 @@ fn exec_machine(case: &Value) -> Value {
     }
 }
 
-fn exec(case: &Value) -> Value {
+pub fn exec(case: &Value) -> Value {
     if case["k"] == "machine" {
         return exec_machine(case);
     }
@@ -503,6 +503,7 @@ fn exec(case: &Value) -> Value {
     }
 }
 
+#[allow(dead_code)]
 fn main() {
     run_main(
         |rng, tier| {
